@@ -116,11 +116,17 @@ def run_row(item):
             s2 = css.Selector(ser)
             sheet = cssutils.parseString(text + " { left: 0 }")
             s3 = sheet.cssRules[0].selectorList[0]
+            # a rejected assignment (logging mode: nothing is raised) must not leave a specificity that belongs to another text
+            cssutils.log.raiseExceptions = False
+            try:
+                s.selectorText = "x#y#z.k >"
+            except Exception:
+                pass
             cssutils.log.raiseExceptions = True
             return {"out": "ok", "text": text, "spec": spec, "respec": list(s2.specificity), "sheetspec": list(s3.specificity),
-                    "parts": project(s2), "parts0": project(s), "ser": ser}
+                    "parts": project(s2), "parts0": project(css.Selector(text)), "ser": ser, "rejtext": s.selectorText, "rejspec": list(s.specificity)}
         out, o = outcome(f)
-        spellings.append(o if out == "ok" else {"out": out, "text": text, "spec": [], "respec": [], "sheetspec": [], "parts": [], "parts0": [], "ser": ""})
+        spellings.append(o if out == "ok" else {"out": out, "text": text, "spec": [], "respec": [], "sheetspec": [], "parts": [], "parts0": [], "ser": "", "rejtext": "", "rejspec": []})
     return {"id": rid, "item": r, "init": {"x": 0}, "steps": [{"a": r, "out": "ok", "post": {"spellings": spellings}}]}
 
 
